@@ -58,20 +58,20 @@ prop("C04",
      note="Assumes the tape view contracts (checked, bounded, in unit u2_tape), the Context::input/output oracle contracts (u2_tape) and the CellType ring contracts (proved in u1_cell; copied verbatim). Trusted: the canonical semantics in the unit template, vstd's str::as_bytes spec, Verus+Z3. Termination of the unlimited instance rests on the lock-step argument (not machine-checked).")
 
 prop("C07",
-     units=[("verus", "u7_inplace", r"#limited"), ("kani", "u5_bcint_ops", None), ("kani", "u6_jit", None)],
+     units=[("verus", "u7_inplace", r"#limited"), ("kani", "u5_bcint_ops", None), ("kani", "u6_jit", None), ("kani", "u8_irint", None)],
      level="model_checking",
      technique="Verus deductive proof of the LIMITED=true monomorphisation of the real in-place interpreter (simulation invariant + termination measure); Kani contract harnesses for the bytecode interpreter's limit op",
      design_ref="DESIGN.md section 4-U7, 5-C07",
-     text="In-place backend (unbounded proof): budget-limited execution terminates (lexicographic measure), reports finished only when the canonical run halted, and its log is always a canonical prefix. Bytecode interpreter (Kani, per op): limit charges the budget, stops with registers spilled at budget <= cost and returns the next ip.",
-     note="Proof covers the in-place interpreter. Not decided: 'effectively unlimited budget reports finished' for the compiled back ends (needs C01-C03 in full).")
+     text="In-place backend (unbounded proof): budget-limited execution terminates (lexicographic measure), reports finished only when the canonical run halted, and its log is always a canonical prefix. Bytecode interpreter (Kani, per op): limit charges the budget, stops with registers spilled at budget <= cost and returns the next ip. IR interpreter (Kani, concrete block shapes): loops incl. nested ones stop with 'not finished' exactly at budget exhaustion and run nothing afterwards. JIT (Kani over all machine states): the emitted budget check terminates iff budget < 2.",
+     note="Proof covers the in-place interpreter; the other back ends are covered per mechanism and bounded. Not decided: placement of limit ops by build_threaded_code; 'effectively unlimited budget reports finished' for the compiled back ends (needs C01-C03 in full); irint Calc arm.")
 
 prop("C08",
-     units=[("verus", "u7_inplace", None), ("kani", "u2_tape", None), ("kani", "u5_bcint_ops", None), ("kani", "u6b_jit_shims", None)],
+     units=[("verus", "u7_inplace", None), ("kani", "u2_tape", None), ("kani", "u5_bcint_ops", None), ("kani", "u6b_jit_shims", None), ("kani", "u8_irint", None)],
      level="model_checking",
      technique="Verus proof of the in-place stop path (stopped configuration, no later event) + loop-free Kani contract harnesses for Context::input/output result mapping over all reader/writer outcomes",
      design_ref="DESIGN.md section 4-U7/U2, 5-C08",
-     text="Context::input/output map every reader/writer outcome as specified (complete, loop-free); the in-place interpreter stops at the failing operation with the canonical prefix and returns Ok (unbounded proof).",
-     note="Per-backend stop paths of the bytecode interpreter and the JIT are added by units U5/U6 when present in the evidence.")
+     text="Context::input/output map every reader/writer outcome as specified (complete, loop-free); the in-place interpreter stops at the failing operation with the canonical prefix and returns Ok (unbounded proof); bytecode input/output ops return the null ip without a store; the IR interpreter propagates a failure out of nested blocks with no later event (concrete block shapes); the JIT's runtime shims report input and output failure to the generated code.",
+     note="NOT decided: the JIT's generated call sequences around Inp/Out (push/pop symmetry, the jump to the termination path) -- the call-making forms are outside unit u6; llvmjit (feature off).")
 
 prop("C02",
      units=[("kani", "u5_bcint_ops", None), ("kani", "u9_bc_passes", None)],
